@@ -24,7 +24,8 @@ Definition range := (bytes * bytes)%type.
 (* a region description as returned by PD (router.Region) or carried by an EpochNotMatch error *)
 Record desc := mkDesc {
   d_id : N; d_start : bytes; d_end : bytes; d_ver : N; d_conf : N;
-  d_peers : list peer; d_leader : peer (* (0,0) = no leader *) }.
+  d_peers : list peer; d_leader : peer; (* (0,0) = no leader *)
+  d_bk : option (N * list bytes)      (* metapb.Buckets: version and boundary keys, as reported *) }.
 
 (* a cached *Region *)
 Record region := mkRegion {
@@ -33,7 +34,8 @@ Record region := mkRegion {
   r_expired : bool;                           (* ts > ttl (TTL run out or invalidated) *)
   r_reason : N;                               (* invalidReason: 0 Ok 1 NoLeader 2 RegionNotFound 3 EpochNotMatch 4 StoreNotFound 5 Other *)
   r_reload : bool; r_pending : bool; r_ready : bool; (* needReloadOnAccess, needDelayedReloadPending, needDelayedReloadReady *)
-  r_sepochs : list N                          (* regionStore.storeEpochs: the store fail-epochs seen when the entry was made *) }.
+  r_sepochs : list N;                         (* regionStore.storeEpochs: the store fail-epochs seen when the entry was made *)
+  r_bk : option (N * list bytes)              (* regionStore.buckets *) }.
 
 Definition r_verid (r : region) : verid := (r_id r, r_ver r, r_conf r).
 Definition r_contains (r : region) k := contains (r_start r) (r_end r) k.
@@ -133,20 +135,31 @@ Definition stale_by_latest (c : cache) (r : region) : bool :=
 
 (* regionIndexMu.insertRegionToCache; returns (inserted?, cache). The invalidateOldRegion flag only
    touches entries that leave the index, so it has no effect on the model state. *)
+(* what the new entry takes over from the first intersected old entry: the work peer is rotated when the old one was
+   invalidated for NoLeader; the old buckets are kept when the new region has none or older ones *)
+Definition with_work (r old : region) : region :=
+  if r_reason old =? 1
+  then mkRegion (r_id r) (r_start r) (r_end r) (r_ver r) (r_conf r) (r_peers r)
+         (Nat.modulo (S (r_work old)) (length (r_peers r))) (r_expired r) (r_reason r) (r_reload r) (r_pending r) (r_ready r) (r_sepochs r) (r_bk r)
+  else r.
+Definition bk_ver (b : option (N * list bytes)) : N := match b with Some (v, _) => v | None => 0 end.
+Definition keep_bk (r old : region) : region :=
+  let b := match r_bk r with
+           | None => r_bk old
+           | Some (v, _) => match r_bk old with Some (ov, _) => if v <? ov then r_bk old else r_bk r | None => r_bk r end
+           end in
+  mkRegion (r_id r) (r_start r) (r_end r) (r_ver r) (r_conf r) (r_peers r) (r_work r) (r_expired r) (r_reason r)
+           (r_reload r) (r_pending r) (r_ready r) (r_sepochs r) b.
+Definition inherit (r : region) (deleted : list region) : region :=
+  match deleted with old :: _ => keep_bk (with_work r old) old | [] => r end.
+
 Definition insert_region (c : cache) (r : region) : bool * cache :=
   if stale_by_latest c r then (false, c)
   else
     let '(l1, deleted, stale) := remove_intersecting r (c_sorted c) in
     if stale then (false, c)
     else
-      let r1 := match deleted with
-                | old :: _ => if r_reason old =? 1
-                              then mkRegion (r_id r) (r_start r) (r_end r) (r_ver r) (r_conf r) (r_peers r)
-                                     (Nat.modulo (S (r_work old)) (length (r_peers r)))
-                                     (r_expired r) (r_reason r) (r_reload r) (r_pending r) (r_ready r) (r_sepochs r)
-                              else r
-                | [] => r
-                end in
+      let r1 := inherit r deleted in
       let '(regs, lat) := fold_left (fun acc d => remove_version (r_verid d) (fst acc) (snd acc)) deleted (c_regions c, c_latest c) in
       (true, mkCache (ins_sorted r1 l1) (reg_set (r_verid r1) (r_start r1) regs) (lat_set (r_id r1) (r_ver r1, r_conf r1) lat) (c_sepochs c)).
 
@@ -156,8 +169,13 @@ Fixpoint store_epoch (se : list (N * N)) (st : N) : N :=
   match se with [] => 0 | (s, e) :: t => if s =? st then e else store_epoch t st end.
 Definition stamp (se : list (N * N)) (r : region) : region :=
   mkRegion (r_id r) (r_start r) (r_end r) (r_ver r) (r_conf r) (r_peers r) (r_work r) (r_expired r) (r_reason r)
-           (r_reload r) (r_pending r) (r_ready r) (map (fun p : peer => store_epoch se (snd p)) (r_peers r)).
+           (r_reload r) (r_pending r) (r_ready r) (map (fun p : peer => store_epoch se (snd p)) (r_peers r)) (r_bk r).
 Definition insert_new (c : cache) (r : region) : bool * cache := insert_region c (stamp (c_sepochs c) r).
+(* the caller keeps using the region object it handed in; a successful insertion has updated that object in place
+   (work peer rotation, inherited buckets) *)
+Definition as_stored (c : cache) (lr : region) : region :=
+  let r0 := stamp (c_sepochs c) lr in
+  if fst (insert_region c r0) then inherit r0 (snd (fst (remove_intersecting r0 (c_sorted c)))) else lr.
 Definition insert_all (c : cache) (rs : list region) : cache := fold_left (fun c r => snd (insert_new c r)) rs c.
 
 (* ---- entries addressed through mu.regions ---- *)
@@ -170,25 +188,25 @@ Definition upd_entry (c : cache) (r : region) (f : region -> region) : cache :=
           (c_regions c) (c_latest c) (c_sepochs c).
 
 Definition set_flags (rl pe rd : region -> bool) (r : region) : region :=
-  mkRegion (r_id r) (r_start r) (r_end r) (r_ver r) (r_conf r) (r_peers r) (r_work r) (r_expired r) (r_reason r) (rl r) (pe r) (rd r) (r_sepochs r).
+  mkRegion (r_id r) (r_start r) (r_end r) (r_ver r) (r_conf r) (r_peers r) (r_work r) (r_expired r) (r_reason r) (rl r) (pe r) (rd r) (r_sepochs r) (r_bk r).
 Definition clear_access_flags := set_flags (fun _ => false) r_pending (fun _ => false).
 Definition set_reload := set_flags (fun _ => true) r_pending r_ready.
 Definition set_ready := set_flags r_reload r_pending (fun _ => true).
 Definition set_work (w : nat) (r : region) : region :=
-  mkRegion (r_id r) (r_start r) (r_end r) (r_ver r) (r_conf r) (r_peers r) w (r_expired r) (r_reason r) (r_reload r) (r_pending r) (r_ready r) (r_sepochs r).
+  mkRegion (r_id r) (r_start r) (r_end r) (r_ver r) (r_conf r) (r_peers r) w (r_expired r) (r_reason r) (r_reload r) (r_pending r) (r_ready r) (r_sepochs r) (r_bk r).
 (* switchWorkLeaderToPeer: the new work peer's store epoch is read afresh *)
 Fixpoint set_nth (i : nat) (v : N) (l : list N) : list N :=
   match l, i with [], _ => [] | _ :: t, O => v :: t | x :: t, S j => x :: set_nth j v t end.
 Definition switch_work (se : list (N * N)) (i : nat) (r : region) : region :=
   mkRegion (r_id r) (r_start r) (r_end r) (r_ver r) (r_conf r) (r_peers r) i (r_expired r) (r_reason r) (r_reload r) (r_pending r) (r_ready r)
-           (set_nth i (store_epoch se (snd (nth i (r_peers r) (0, 0)))) (r_sepochs r)).
+           (set_nth i (store_epoch se (snd (nth i (r_peers r) (0, 0)))) (r_sepochs r)) (r_bk r).
 (* Region.invalidate: only the first reason sticks *)
 Definition invalidate_r (reason : N) (r : region) : region :=
   if r_reason r =? 0 then
-    mkRegion (r_id r) (r_start r) (r_end r) (r_ver r) (r_conf r) (r_peers r) (r_work r) true reason (r_reload r) (r_pending r) (r_ready r) (r_sepochs r)
+    mkRegion (r_id r) (r_start r) (r_end r) (r_ver r) (r_conf r) (r_peers r) (r_work r) true reason (r_reload r) (r_pending r) (r_ready r) (r_sepochs r) (r_bk r)
   else r.
 Definition expire_r (r : region) : region :=
-  mkRegion (r_id r) (r_start r) (r_end r) (r_ver r) (r_conf r) (r_peers r) (r_work r) true (r_reason r) (r_reload r) (r_pending r) (r_ready r) (r_sepochs r).
+  mkRegion (r_id r) (r_start r) (r_end r) (r_ver r) (r_conf r) (r_peers r) (r_work r) true (r_reason r) (r_reload r) (r_pending r) (r_ready r) (r_sepochs r) (r_bk r).
 
 (* newRegion: every peer is available in the modelled setting (no tombstone / down / witness peers) *)
 Fixpoint last_idx (p : peer) (l : list peer) (i : nat) (acc : nat) : nat :=
@@ -197,7 +215,7 @@ Fixpoint first_idx (p : peer) (l : list peer) (i : nat) : option nat :=
   match l with [] => None | q :: t => if peer_eqb q p then Some i else first_idx p t (S i) end.
 Definition new_region (d : desc) : region :=
   mkRegion (d_id d) (d_start d) (d_end d) (d_ver d) (d_conf d) (d_peers d)
-           (last_idx (d_leader d) (d_peers d) 0 0) false 0 false false false [].
+           (last_idx (d_leader d) (d_peers d) 0 0) false 0 false false false [] (d_bk d).
 
 (* ---- PD oracle ---- *)
 Inductive pd_req :=
@@ -342,10 +360,10 @@ Definition find_region_by_key (fuel t : nat) (c : cache) (key : bytes) (is_end :
     | (Err e, t1) => (Err e, c, t1)
     | (Ok lr, t1) =>
         let '(ok, c1) := insert_new c lr in
-        if ok then (Ok lr, c1, t1)
+        if ok then (Ok (as_stored c lr), c1, t1)
         else match load_region fuel t1 key is_end false with
              | (Err e, t2) => (Err e, c1, t2)
-             | (Ok lr2, t2) => (Ok lr2, snd (insert_new c1 lr2), t2)
+             | (Ok lr2, t2) => (Ok (as_stored c1 lr2), snd (insert_new c1 lr2), t2)
              end
     end in
   match search (c_sorted c) key is_end with
@@ -356,7 +374,7 @@ Definition find_region_by_key (fuel t : nat) (c : cache) (key : bytes) (is_end :
         let c1 := upd_entry c r clear_access_flags in
         match load_region fuel t key is_end false with
         | (Err _, t1) => (Ok r, upd_entry c1 r set_reload, t1)
-        | (Ok lr, t1) => (Ok lr, snd (insert_new c1 lr), t1)
+        | (Ok lr, t1) => (Ok (as_stored c1 lr), snd (insert_new c1 lr), t1)
         end
       else (Ok r, c, t)
   end.
@@ -635,8 +653,8 @@ Definition on_send_fail (c : cache) (v : verid) (idx : nat) (reload : bool) : ca
 (* OnRegionEpochNotMatch: (retry-after-back-off?, cache) *)
 Fixpoint store_idx (st : N) (l : list peer) (i : nat) : option nat :=
   match l with [] => None | q :: t => if snd q =? st then Some i else store_idx st t (S i) end.
-Definition region_on_store (d : desc) (st : N) : region :=
-  let r := new_region (mkDesc (d_id d) (d_start d) (d_end d) (d_ver d) (d_conf d) (d_peers d) (0, 0)) in
+Definition region_on_store (bk : option (N * list bytes)) (d : desc) (st : N) : region :=
+  let r := new_region (mkDesc (d_id d) (d_start d) (d_end d) (d_ver d) (d_conf d) (d_peers d) (0, 0) bk) in
   match store_idx st (d_peers d) 0 with Some i => set_work i r | None => r end.
 Definition epoch_ahead (v : verid) (cur : list desc) : bool :=
   let '(id, ver, conf) := v in existsb (fun d => (d_id d =? id) && ((d_conf d <? conf) || (d_ver d <? ver))) cur.
@@ -647,7 +665,8 @@ Definition on_epoch_not_match (c : cache) (v : verid) (ctx_store : N) (cur : lis
     if epoch_ahead v cur then Ok (true, c)
     else if existsb (fun d => is_nil (d_peers d)) cur then Err 2
     else
-      let news := map (fun d => region_on_store d ctx_store) cur in
+      let bk := match get_by_verid c v with Some x => r_bk x | None => None end in (* the new regions inherit the old buckets *)
+      let news := map (fun d => region_on_store bk d ctx_store) cur in
       let keep := existsb (fun r => verid_eqb (r_verid r) v) news in
       let c1 := if keep then c else invalidate c v 3 in
       Ok (false, insert_all c1 news)
@@ -658,3 +677,70 @@ Definition gc (c : cache) : cache :=
   let dead := filter r_expired (c_sorted c) in
   let '(regs, lat) := fold_left (fun acc d => remove_version (r_verid d) (fst acc) (snd acc)) dead (c_regions c, c_latest c) in
   mkCache (map (fun r => if r_ready r then r else if r_pending r then set_ready r else r) (filter (fun r => negb (r_expired r)) (c_sorted c))) regs lat (c_sepochs c).
+
+(* ---- buckets ---- *)
+Definition set_bk (b : option (N * list bytes)) (r : region) : region :=
+  mkRegion (r_id r) (r_start r) (r_end r) (r_ver r) (r_conf r) (r_peers r) (r_work r) (r_expired r) (r_reason r)
+           (r_reload r) (r_pending r) (r_ready r) (r_sepochs r) b.
+(* OnBucketVersionNotMatch *)
+Definition on_bucket_version_not_match (c : cache) (v : verid) (ver : N) (keys : list bytes) : cache :=
+  match get_by_verid c v with
+  | None => c
+  | Some r => match r_bk r with
+              | Some (bv, _) => if bv <? ver then upd_entry c r (set_bk (Some (ver, keys))) else c
+              | None => upd_entry c r (set_bk (Some (ver, keys)))
+              end
+  end.
+
+(* sort.Search *)
+Fixpoint bsearch (fuel i j : nat) (f : nat -> bool) : nat :=
+  match fuel with
+  | O => i
+  | S fu => if Nat.ltb i j then let h := Nat.div2 (i + j) in if f h then bsearch fu i h f else bsearch fu (S h) j f else i
+  end.
+Definition sort_search (n : nat) (f : nat -> bool) : nat := bsearch (S n) 0 n f.
+
+(* KeyLocation.locateBucket *)
+Definition locate_bucket (keys : list bytes) (key : bytes) : option (bytes * bytes) :=
+  match keys with
+  | [] => None
+  | _ =>
+    let sl := (length keys - 1)%nat in
+    let i := sort_search sl (fun i => lex_ltb key (nth i keys [])) in
+    if Nat.eqb i 0 || (Nat.eqb i sl && negb (is_nil (nth sl keys [])) && lex_leb (nth sl keys []) key) then None
+    else Some (nth (i - 1) keys [], nth i keys [])
+  end.
+(* clampBucketToRegion *)
+Definition clamp_bucket (s e : bytes) (b : bytes * bytes) : bytes * bytes :=
+  let bs := if lex_ltb (fst b) s then s else fst b in
+  let be := if negb (is_nil e) && (is_nil (snd b) || lex_ltb e (snd b)) then e else snd b in
+  if negb (is_nil be) && lex_leb be bs then (s, e) else (bs, be).
+(* KeyLocation.LocateBucket on a location [s,e) that carries bucket keys (Buckets != nil) *)
+Definition locate_bucket_full (s e : bytes) (keys : list bytes) (key : bytes) : option (bytes * bytes) :=
+  match locate_bucket keys key with
+  | Some b => Some (clamp_bucket s e b)
+  | None =>
+      if negb (contains s e key) then None
+      else match keys with
+           | [] => Some (s, e)
+           | first :: _ =>
+               if lex_ltb key first then Some (s, first)
+               else let lastk := last keys [] in
+                    if lex_leb lastk key then Some (lastk, e) else None (* "Unreachable" *)
+           end
+  end.
+
+(* UpdateBucketsIfNeeded (the background reload is run to completion) *)
+Definition update_buckets (pd : nat -> pd_req -> pd_ans) (budget t : nat) (c : cache) (v : verid) (req latest : N) : cache * nat :=
+  match get_by_verid c v with
+  | None => (c, t)
+  | Some r =>
+      let bv := bk_ver (r_bk r) in
+      if negb (req =? 0) && (req <? bv) then (c, t)
+      else if bv <? latest then
+        match load_by_id pd budget t (fst (fst v)) with
+        | (Ok lr, t1) => (snd (insert_new c lr), t1)
+        | (Err _, t1) => (c, t1)
+        end
+      else (c, t)
+  end.
